@@ -40,7 +40,8 @@ def run_batch(ctx, n, with_model=True):
             continue
         declared = set(prog.cond_fields()) | set(prog.splitters or [])
         # program-level transformations
-        renamed = copy.copy(prog); renamed.name = "other_name_" + prog.name
+        renamed = copy.copy(prog)
+        renamed.name = rng.choice(["other_name_" + prog.name, "partial", "deterministic_choice", "str", "map", "recompile", "run_experiment", "_checksum"])
         permuted = copy.copy(prog); permuted.splitters = list(reversed(prog.splitters)) + [prog.splitters[0]]
         ev_renamed, ev_permuted = evaluator(gen.render(renamed)), evaluator(gen.render(permuted))
         for env in envs:
